@@ -84,7 +84,7 @@ fn verif_native_c09_definitions() {
 }
 
 
-//@n {"id":"C09.N.definitions.hang","props":["C09"],"tier":"quick","bound":"12 degenerate definitions consisting only of modifiers, separators or sigils; each instantiated in its own thread with a 5 s limit","text":"instantiating an operator from any text returns (a handle or an error) in bounded time; it never loops without bound"}
+//@n {"id":"C09.N.definitions.hang","props":["C09"],"tier":"quick","bound":"12 degenerate definitions consisting only of modifiers, separators or sigils; each instantiated in its own thread with a 20 s limit","text":"instantiating an operator from any text returns (a handle or an error) in bounded time; it never loops without bound"}
 #[test]
 fn verif_native_c09_definitions_hang() {
     let defs = ["omit_fwd", "inv", "inv inv", "omit_inv omit_fwd", "inv omit_fwd inv", "<", ">", "< >", "|", "| |", "$", "="];
@@ -99,10 +99,10 @@ fn verif_native_c09_definitions_hang() {
             });
             let _ = tx.send(r.is_ok());
         });
-        match rx.recv_timeout(std::time::Duration::from_secs(5)) {
+        match rx.recv_timeout(std::time::Duration::from_secs(20)) {
             Ok(true) => {}
             Ok(false) => hung.push(format!("`{def}` panics")),
-            Err(_) => hung.push(format!("`{def}` does not return within 5 s")),
+            Err(_) => hung.push(format!("`{def}` does not return within 20 s")),
         }
     }
     assert!(hung.is_empty(), "C09.N.definitions.hang: {} of {} definitions: {:?}", hung.len(), defs.len(), hung);
